@@ -1958,6 +1958,18 @@ class RefCellV(object):
         return 'RefCell(%r)' % (self.cell[0],)
 
 
+@model('Arc::clone', 'Rc::clone', 'std::sync::Arc::clone', 'std::rc::Rc::clone')
+def m_rc_clone_inherent(it, args, fr, callee):
+    return _deref_arg(args[0])
+
+
+@tmodel('str', 'ToString', 'to_string')
+@tmodel('str', 'ToOwned', 'to_owned')
+@tmodel('String', 'From', 'from')
+def m_str_to_string(it, args, fr, callee):
+    return _deref_all(args[0])
+
+
 @model('Rc::new', 'std::rc::Rc::new', 'Arc::new', 'std::sync::Arc::new')
 def m_rc_new(it, args, fr, callee):
     return RcV(args[0])
@@ -2117,6 +2129,14 @@ def m_default(it, args, fr, callee):
         return MapV('set')
     if h == 'SlotMap':
         return SlotMapV()
+    if h == 'BinaryHeap':
+        return HeapV()
+    if h in ('Arc', 'Rc'):
+        inner = last_generics(split_path(t)[-1])[0]
+        return RcV(it.call('<%s as Default>::default' % inner, [], fr))
+    if h in ('Mutex', 'RefCell'):
+        inner = last_generics(split_path(t)[-1])[0]
+        return RefCellV(it.call('<%s as Default>::default' % inner, [], fr))
     return NotImplemented
 
 
@@ -2380,3 +2400,202 @@ def m_slice_reverse(it, args, fr, callee):
     ln = it.concretize(Sc('usize', s.len), 'slice length')
     s.buf[st:st + ln] = s.buf[st:st + ln][::-1]
     return UNIT
+
+
+# arithmetic operator traits on (references to) integers: same overflow behaviour as the MIR binops in the dev profile
+def _arith_trait(opname, mirop):
+    def f(it, args, fr, callee):
+        a, b = _deref_all(args[0]), _deref_all(args[1])
+        if type(a) is not Sc or type(b) is not Sc or a.t not in INT_W:
+            return NotImplemented
+        r = it.binop(mirop + 'WithOverflow', a, b)
+        ov = r.fields[1].v
+        if isinstance(ov, int):
+            if ov:
+                raise PanicReached('attempt to %s with overflow' % opname, 'assert')
+        else:
+            it.require(ov == 0, 'attempt to %s with overflow' % opname, 'assert')
+        return r.fields[0]
+    return f
+
+
+TRAIT_MODELS[('*', 'Add', 'add')] = _arith_trait('add', 'Add')
+TRAIT_MODELS[('*', 'Sub', 'sub')] = _arith_trait('subtract', 'Sub')
+TRAIT_MODELS[('*', 'Mul', 'mul')] = _arith_trait('multiply', 'Mul')
+
+
+# =================================================================================================
+# BinaryHeap (max-heap) ordered by calling the element type's own Ord::cmp (MIR for user types), mpsc channel
+# =================================================================================================
+class HeapV(object):
+    __slots__ = ('items', 'elem_ty')
+
+    def __init__(self):
+        self.items = []
+        self.elem_ty = None
+
+
+class ChanV(object):
+    __slots__ = ('queue',)
+
+    def __init__(self):
+        self.queue = []
+
+
+def _deref_obj(x, cls):
+    while type(x) is Ref:
+        x = x.cont[x.key]
+    if type(x) is cls:
+        return x
+    raise Unsupported('expected %s, got %r' % (cls.__name__, x))
+
+
+def _heap_elem_ty(it, callee, fr):
+    segs = split_path(callee)
+    for sg in segs:
+        g = last_generics(sg)
+        if g and ('BinaryHeap' in sg or sg.startswith('<')):
+            return it.subst(g[0], fr)
+    for sg in segs:
+        if sg.startswith('<') and not sg.startswith('<impl'):
+            g = last_generics(sg)
+            if g:
+                return it.subst(g[0], fr)
+    return None
+
+
+def elem_cmp(it, ty, a_ref, b_ref, fr):
+    """Ordering variant index (0 Less, 1 Equal, 2 Greater) of *a_ref vs *b_ref by <ty as Ord>::cmp"""
+    ty = ty.strip()
+    h = type_head(ty)
+    if h == 'Reverse':
+        inner = last_generics(split_path(ty)[-1])[0]
+        a, b = a_ref.cont[a_ref.key], b_ref.cont[b_ref.key]
+        return elem_cmp(it, inner, Ref(b.fields, 0), Ref(a.fields, 0), fr)
+    r = it.call('<%s as Ord>::cmp' % ty, [a_ref, b_ref], fr)
+    return r.variant
+
+
+def heap_max_index(it, hp, fr):
+    best = 0
+    for i in range(1, len(hp.items)):
+        if elem_cmp(it, hp.elem_ty, Ref(hp.items, i), Ref(hp.items, best), fr) == 2:
+            best = i
+    return best
+
+
+@model('BinaryHeap::new', 'std::collections::BinaryHeap::new')
+def m_heap_new(it, args, fr, callee):
+    return HeapV()
+
+
+@tmodel('BinaryHeap', 'Default', 'default')
+def m_heap_default(it, args, fr, callee):
+    return HeapV()
+
+
+@model('BinaryHeap::push', 'std::collections::BinaryHeap::push')
+def m_heap_push(it, args, fr, callee):
+    hp = _deref_obj(args[0], HeapV)
+    if hp.elem_ty is None:
+        hp.elem_ty = _heap_elem_ty(it, callee, fr)
+    hp.items.append(args[1])
+    return UNIT
+
+
+@model('BinaryHeap::peek', 'std::collections::BinaryHeap::peek')
+def m_heap_peek(it, args, fr, callee):
+    hp = _deref_obj(args[0], HeapV)
+    if hp.elem_ty is None:
+        hp.elem_ty = _heap_elem_ty(it, callee, fr)
+    if not hp.items:
+        return none()
+    return some(Ref(hp.items, heap_max_index(it, hp, fr)))
+
+
+@model('BinaryHeap::pop', 'std::collections::BinaryHeap::pop')
+def m_heap_pop(it, args, fr, callee):
+    hp = _deref_obj(args[0], HeapV)
+    if hp.elem_ty is None:
+        hp.elem_ty = _heap_elem_ty(it, callee, fr)
+    if not hp.items:
+        return none()
+    return some(hp.items.pop(heap_max_index(it, hp, fr)))
+
+
+@model('BinaryHeap::len', 'std::collections::BinaryHeap::len')
+def m_heap_len(it, args, fr, callee):
+    return Sc('usize', len(_deref_obj(args[0], HeapV).items))
+
+
+@model('BinaryHeap::is_empty', 'std::collections::BinaryHeap::is_empty')
+def m_heap_is_empty(it, args, fr, callee):
+    return Sc('bool', int(not _deref_obj(args[0], HeapV).items))
+
+
+@model('std::sync::mpsc::channel', 'mpsc::channel', 'channel')
+def m_channel(it, args, fr, callee):
+    ch = ChanV()
+    return Agg('tuple', None, [Agg('Sender', None, [ch]), Agg('Receiver', None, [ch])])
+
+
+@model('Sender::send', 'std::sync::mpsc::Sender::send', 'mpsc::Sender::send')
+def m_send(it, args, fr, callee):
+    s = args[0]
+    while type(s) is Ref:
+        s = s.cont[s.key]
+    s.fields[0].queue.append(args[1])
+    return ok(UNIT)
+
+
+@model('Receiver::try_recv', 'std::sync::mpsc::Receiver::try_recv', 'mpsc::Receiver::try_recv')
+def m_try_recv(it, args, fr, callee):
+    r = args[0]
+    while type(r) is Ref:
+        r = r.cont[r.key]
+    q = r.fields[0].queue
+    if q:
+        return ok(q.pop(0))
+    return err(Agg('TryRecvError', 0, []))
+
+
+@tmodel('Reverse', 'Ord', 'cmp')
+def m_reverse_cmp(it, args, fr, callee):
+    end = match_close(callee, 0)
+    inner = callee[1:end]
+    k = _top_as(inner)
+    ty = it.subst(inner[:k].strip(), fr)
+    v = elem_cmp(it, strip_ref(ty), args[0], args[1], fr)
+    return Agg('Ordering', v, [])
+
+
+# PartialOrd's provided methods (lt/le/gt/ge) in terms of the type's own partial_cmp (MIR for user types)
+def _pord_default(name):
+    accept = {'lt': (0,), 'le': (0, 1), 'gt': (2,), 'ge': (1, 2)}[name]
+    mirop = {'lt': 'Lt', 'le': 'Le', 'gt': 'Gt', 'ge': 'Ge'}[name]
+
+    def f(it, args, fr, callee):
+        a, b = _deref_all(args[0]), _deref_all(args[1])
+        if type(a) is Sc and type(b) is Sc:
+            return it.fbinop(mirop, a, b) if a.t == 'f64' else it.binop(mirop, a, b)
+        end = match_close(callee, 0)
+        inner = callee[1:end]
+        k = _top_as(inner)
+        ty = strip_ref(it.subst(inner[:k].strip(), fr))
+        r = it.call('<%s as PartialOrd>::partial_cmp' % ty, [args[0], args[1]], fr)
+        if r.variant == 0:
+            return Sc('bool', 0)
+        return Sc('bool', int(r.fields[0].variant in accept))
+    return f
+
+
+for _n in ('lt', 'le', 'gt', 'ge'):
+    TRAIT_MODELS[('*', 'PartialOrd', _n)] = _pord_default(_n)
+
+
+@tmodel('*', 'PartialOrd', 'partial_cmp')
+def m_partial_cmp_scalar(it, args, fr, callee):
+    a, b = _deref_all(args[0]), _deref_all(args[1])
+    if type(a) is Sc and type(b) is Sc and a.t in INT_W:
+        return some(it.binop('Cmp', a, b))
+    return NotImplemented
